@@ -581,7 +581,7 @@ func (self *Interpreter) castExpression(node ast.AnalyzedCastExpression) (*value
 	casted, castErr := value.DeepCast(*base, node.AsType, node.Span(), true)
 	if castErr != nil {
 		// A failed cast is an ordinary, catchable exception (like on the VM).
-		return nil, value.NewThrowInterrupt(node.Span(), "Cast error "+(*castErr).Message())
+		return nil, value.NewThrowInterrupt(node.Span(), "Cast error"+(*castErr).Message())
 	}
 	return casted, nil
 
